@@ -3,8 +3,10 @@
   writable: the main induction over `wr` (serialiser) and `rbWalk` (dedup).
 
   Context of a subtree: `A` = the top frame of dedup's name stack above it (all declarations of
-  the ancestors, in order), `A'` = the same after the removals; the serialiser's top frames are
-  `(xml) :: A` and `(xml) :: A'`.
+  the ancestors the call has walked through, in order), `A'` = the same after the removals; the
+  serialiser's top frames are `X ++ A` and `X ++ A'`, where `X` is what the serialiser has on its
+  stack above the node the call was made on (`[(xml)]` for a root call; `(xml)` plus the
+  declarations above the node for an inner call, Lemmas/ScopeInner.lean).
 -/
 import XotModel.Lemmas.ScopeKeep
 import XotModel.Lemmas.Scope
@@ -45,12 +47,12 @@ theorem KeepCtx.mono {A A' : List (Nat × Nat)} {tr tr' : Tracker} (h : KeepCtx 
   ⟨h.sub, h.known, fun ns hm => hle.hasDefault (h.tracked ns hm)⟩
 
 mutual
-theorem keep_tree (env : Env) : ∀ (x : Tree) (A A' : List (Nat × Nat)) (tr : Tracker),
+theorem keep_tree (env : Env) (X : List (Nat × Nat)) : ∀ (x : Tree) (A A' : List (Nat × Nat)) (tr : Tracker),
     KeepCtx A A' tr →
     (∀ ns, attrKnownIn A ns = true → attrKnownIn A' ns = true ∨ hasAttrNs env ns x = false) →
-    noShadow (Env.xmlPrefix :: A.map Prod.fst) x →
-    wr env ((Env.xmlPrefix, Env.xmlNamespace) :: A) x = true →
-    wr env ((Env.xmlPrefix, Env.xmlNamespace) :: A') (rbWalk env A x tr).2 = true
+    noShadow (X.map Prod.fst ++ A.map Prod.fst) x →
+    wr env (X ++ A) x = true →
+    wr env (X ++ A') (rbWalk env A x tr).2 = true
   | .node v ks, A, A', tr, hc, hat, hg, hw => by
     cases v with
     | element name =>
@@ -58,10 +60,10 @@ theorem keep_tree (env : Env) : ∀ (x : Tree) (A A' : List (Nat × Nat)) (tr : 
       obtain ⟨hnd, hdis, hkids⟩ := hg
       -- the frames below this element
       have hdisA : ∀ p ∈ (declsOfKids ks).map Prod.fst, p ∉ A.map Prod.fst := fun p hp hm =>
-        hdis p hp (by simp [hm])
-      have hW : pushTop ((Env.xmlPrefix, Env.xmlNamespace) :: A) (declsOfKids ks) =
-          (Env.xmlPrefix, Env.xmlNamespace) :: (A ++ declsOfKids ks) :=
-        pushTop_disjoint _ _ (by simpa using hdis)
+        hdis p hp (List.mem_append.2 (.inr hm))
+      have hW : pushTop (X ++ A) (declsOfKids ks) = X ++ (A ++ declsOfKids ks) := by
+        rw [← List.append_assoc]
+        exact pushTop_disjoint _ _ (by simpa [List.map_append] using hdis)
       have hA : pushTop A (declsOfKids ks) = A ++ declsOfKids ks := pushTop_disjoint _ _ hdisA
       simp only [wr, nsDecls_node, hW, Bool.and_eq_true] at hw
       obtain ⟨hwE, hwK⟩ := hw
@@ -79,7 +81,7 @@ theorem keep_tree (env : Env) : ∀ (x : Tree) (A A' : List (Nat × Nat)) (tr : 
         simp only [rbWalk, nsDecls_node, hA, hr]
       generalize htR : dedupToRemove A r.1.tail (declsOfKids ks) = toRemove
       obtain ⟨hsubl, hkept, hattrs, hwr⟩ := eraseKids_facts env
-        ((Env.xmlPrefix, Env.xmlNamespace) :: (A' ++ declsOfKids (eraseKids (declsOfKids ks) toRemove r.2)))
+        (X ++ (A' ++ declsOfKids (eraseKids (declsOfKids ks) toRemove r.2)))
         (.element name) ks r.2 toRemove hvals hnd
       generalize hf' : declsOfKids (eraseKids (declsOfKids ks) toRemove r.2) = f' at hsubl hkept hwr
       -- a declaration is either kept or its namespace is known above and safe to remove
@@ -126,8 +128,8 @@ theorem keep_tree (env : Env) : ∀ (x : Tree) (A A' : List (Nat × Nat)) (tr : 
               | false => exact .inr rfl
               | true =>
                 have := rb_flag env ns (.node (.element name) ks) A tr
-                  (Env.xmlPrefix :: A.map Prod.fst)
-                  (by simp only [List.mem_cons, List.mem_map]; exact .inr ⟨_, hq, rfl⟩)
+                  (X.map Prod.fst ++ A.map Prod.fst)
+                  (List.mem_append.2 (.inr (List.mem_map.2 ⟨_, hq, rfl⟩)))
                   (by simp only [noShadow, nsDecls_node]; exact ⟨hnd, hdis, hkids⟩)
                   (hc.tracked ns hq) hh
                 rw [htr3, hsafe] at this
@@ -147,18 +149,18 @@ theorem keep_tree (env : Env) : ∀ (x : Tree) (A A' : List (Nat × Nat)) (tr : 
           simp only [Tree.getNamespace, nsDecls_node]
           exact (mem_iff_lookup_of_nodup _ hnd _ _).1 hm
       -- the serialiser's frame below the rebuilt element
-      have hdis' : ∀ p ∈ f'.map Prod.fst,
-          p ∉ ((Env.xmlPrefix, Env.xmlNamespace) :: A').map Prod.fst := by
+      have hdis' : ∀ p ∈ f'.map Prod.fst, p ∉ (X ++ A').map Prod.fst := by
         intro p hp hm
         obtain ⟨kv, hkv, rfl⟩ := List.mem_map.1 hp
         apply hdis kv.1 (List.mem_map.2 ⟨kv, hsubl.subset hkv, rfl⟩)
-        simp only [List.map_cons, List.mem_cons] at hm ⊢
+        simp only [List.map_append, List.mem_append] at hm ⊢
         rcases hm with hm | hm
         · exact .inl hm
         · obtain ⟨kv', hkv', he⟩ := List.mem_map.1 hm
           exact .inr (List.mem_map.2 ⟨kv', hc.sub kv' hkv', he⟩)
-      have hW' : pushTop ((Env.xmlPrefix, Env.xmlNamespace) :: A') f' =
-          (Env.xmlPrefix, Env.xmlNamespace) :: (A' ++ f') := pushTop_disjoint _ _ hdis'
+      have hW' : pushTop (X ++ A') f' = X ++ (A' ++ f') := by
+        rw [← List.append_assoc]
+        exact pushTop_disjoint _ _ hdis'
       simp only [wr, nsDecls_node, hf', hW', Bool.and_eq_true]
       refine ⟨?_, ?_⟩
       · -- the element's own names
@@ -172,17 +174,16 @@ theorem keep_tree (env : Env) : ∀ (x : Tree) (A A' : List (Nat × Nat)) (tr : 
           | false => simp
           | true =>
             simp only [hno, Bool.true_and, Bool.not_eq_eq_eq_not, Bool.not_true] at hwD ⊢
-            cases hd : FStack.hasDefaultNamespace [(Env.xmlPrefix, Env.xmlNamespace) :: (A' ++ f')] with
+            cases hd : FStack.hasDefaultNamespace [X ++ (A' ++ f')] with
             | false => rfl
             | true =>
               exfalso
               simp only [FStack.hasDefaultNamespace, FStack.top, List.headD_cons, List.any_eq_true] at hd
               obtain ⟨kv, hkv, hcond⟩ := hd
-              have : FStack.hasDefaultNamespace
-                  [(Env.xmlPrefix, Env.xmlNamespace) :: (A ++ declsOfKids ks)] = true := by
+              have : FStack.hasDefaultNamespace [X ++ (A ++ declsOfKids ks)] = true := by
                 simp only [FStack.hasDefaultNamespace, FStack.top, List.headD_cons, List.any_eq_true]
                 refine ⟨kv, ?_, hcond⟩
-                simp only [List.mem_cons] at hkv ⊢
+                rw [List.mem_append] at hkv ⊢
                 rcases hkv with h | h
                 · exact .inl h
                 · exact .inr (hsub1 kv h)
@@ -190,14 +191,14 @@ theorem keep_tree (env : Env) : ∀ (x : Tree) (A A' : List (Nat × Nat)) (tr : 
               cases hwD
         · rcases hwE.1 with h | h
           · exact .inl h
-          · simp only [knownIn_cons, Bool.or_eq_true] at h ⊢
+          · rw [knownIn_append X, Bool.or_eq_true] at h ⊢
             rcases h with h | h
             · exact .inr (.inl h)
             · exact .inr (.inr (hkn1 _ h))
         · intro n hn
           rcases hwE.2 n hn with h | h
           · exact .inl h
-          · simp only [attrKnownIn_cons, Bool.or_eq_true] at h ⊢
+          · rw [attrKnownIn_append X, Bool.or_eq_true] at h ⊢
             rcases h with h | h
             · exact .inr (.inl h)
             · rcases hat1 _ h with h1 | h1
@@ -210,36 +211,36 @@ theorem keep_tree (env : Env) : ∀ (x : Tree) (A A' : List (Nat × Nat)) (tr : 
                 cases h1
       · -- the children
         apply hwr
-        have := keep_list env ks (A ++ declsOfKids ks) (A' ++ f')
+        have := keep_list env X ks (A ++ declsOfKids ks) (A' ++ f')
           (trackerPush env tr (.node (.element name) ks)) hc1
           (fun ns h => by
             rcases hat1 ns h with h1 | h1
             · exact .inl h1
             · simp only [hasAttrNs, Bool.or_eq_false_iff] at h1
               exact .inr h1.2)
-          (by simpa [List.map_append] using hkids) hwK
+          (by simpa [List.map_append, List.append_assoc] using hkids) hwK
         rw [hr] at this
         exact this
-    | document => simp only [noShadow] at hg; simpa [rbWalk, wr] using keep_list env ks A A' tr hc (by simpa [hasAttrNs] using hat) hg.2 (by simpa [wr] using hw)
-    | text s => simp only [noShadow] at hg; simpa [rbWalk, wr] using keep_list env ks A A' tr hc (by simpa [hasAttrNs] using hat) hg.2 (by simpa [wr] using hw)
-    | pi a b => simp only [noShadow] at hg; simpa [rbWalk, wr] using keep_list env ks A A' tr hc (by simpa [hasAttrNs] using hat) hg.2 (by simpa [wr] using hw)
-    | comment s => simp only [noShadow] at hg; simpa [rbWalk, wr] using keep_list env ks A A' tr hc (by simpa [hasAttrNs] using hat) hg.2 (by simpa [wr] using hw)
-    | «attribute» a b => simp only [noShadow] at hg; simpa [rbWalk, wr] using keep_list env ks A A' tr hc (by simpa [hasAttrNs] using hat) hg.2 (by simpa [wr] using hw)
-    | «namespace» a b => simp only [noShadow] at hg; simpa [rbWalk, wr] using keep_list env ks A A' tr hc (by simpa [hasAttrNs] using hat) hg.2 (by simpa [wr] using hw)
-theorem keep_list (env : Env) : ∀ (ks : List Tree) (A A' : List (Nat × Nat)) (tr : Tracker),
+    | document => simp only [noShadow] at hg; simpa [rbWalk, wr] using keep_list env X ks A A' tr hc (by simpa [hasAttrNs] using hat) hg.2 (by simpa [wr] using hw)
+    | text s => simp only [noShadow] at hg; simpa [rbWalk, wr] using keep_list env X ks A A' tr hc (by simpa [hasAttrNs] using hat) hg.2 (by simpa [wr] using hw)
+    | pi a b => simp only [noShadow] at hg; simpa [rbWalk, wr] using keep_list env X ks A A' tr hc (by simpa [hasAttrNs] using hat) hg.2 (by simpa [wr] using hw)
+    | comment s => simp only [noShadow] at hg; simpa [rbWalk, wr] using keep_list env X ks A A' tr hc (by simpa [hasAttrNs] using hat) hg.2 (by simpa [wr] using hw)
+    | «attribute» a b => simp only [noShadow] at hg; simpa [rbWalk, wr] using keep_list env X ks A A' tr hc (by simpa [hasAttrNs] using hat) hg.2 (by simpa [wr] using hw)
+    | «namespace» a b => simp only [noShadow] at hg; simpa [rbWalk, wr] using keep_list env X ks A A' tr hc (by simpa [hasAttrNs] using hat) hg.2 (by simpa [wr] using hw)
+theorem keep_list (env : Env) (X : List (Nat × Nat)) : ∀ (ks : List Tree) (A A' : List (Nat × Nat)) (tr : Tracker),
     KeepCtx A A' tr →
     (∀ ns, attrKnownIn A ns = true →
       attrKnownIn A' ns = true ∨ hasAttrNs.hasAttrNsList env ns ks = false) →
-    noShadow.noShadowList (Env.xmlPrefix :: A.map Prod.fst) ks →
-    wr.wrList env ((Env.xmlPrefix, Env.xmlNamespace) :: A) ks = true →
-    wr.wrList env ((Env.xmlPrefix, Env.xmlNamespace) :: A') (rbWalk.rbList env A ks tr).2 = true
+    noShadow.noShadowList (X.map Prod.fst ++ A.map Prod.fst) ks →
+    wr.wrList env (X ++ A) ks = true →
+    wr.wrList env (X ++ A') (rbWalk.rbList env A ks tr).2 = true
   | [], A, A', tr, _, _, _, _ => by simp [rbWalk.rbList, wr.wrList]
   | k :: ks, A, A', tr, hc, hat, hg, hw => by
     simp only [noShadow.noShadowList] at hg
     simp only [wr.wrList, Bool.and_eq_true] at hw
     simp only [rbWalk.rbList, wr.wrList, Bool.and_eq_true]
-    refine ⟨keep_tree env k A A' tr hc (fun ns h => ?_) hg.1 hw.1,
-      keep_list env ks A A' _ (hc.mono (rb_le env k A tr)) (fun ns h => ?_) hg.2 hw.2⟩
+    refine ⟨keep_tree env X k A A' tr hc (fun ns h => ?_) hg.1 hw.1,
+      keep_list env X ks A A' _ (hc.mono (rb_le env k A tr)) (fun ns h => ?_) hg.2 hw.2⟩
     · rcases hat ns h with h1 | h1
       · exact .inl h1
       · simp only [hasAttrNs.hasAttrNsList, Bool.or_eq_false_iff] at h1; exact .inr h1.1
@@ -367,7 +368,7 @@ theorem namesWritable_dedup_root (env : Env) (t t' : Tree)
   have hroot := RootOk.of_noShadow hg
   rw [wr_root env t hroot] at hw
   rw [wr_root env _ (hroot.rebuild env)]
-  exact keep_tree env t [] [] []
+  exact keep_tree env [(Env.xmlPrefix, Env.xmlNamespace)] t [] [] []
     ⟨fun _ h => h, fun _ h => h, fun ns h => by simp at h⟩
     (fun ns h => by simp [attrKnownIn] at h) hg hw
 
